@@ -66,7 +66,7 @@ func runC04(rc *RunCtx) {
 				ct.TokenPair{RemoteDomain: 5, RemoteToken: Token(1), LocalToken: c04Voucher},
 				ct.TokenPair{RemoteDomain: 5, RemoteToken: Token(2), LocalToken: "factory/Noble1Creator/UTOKEN"})
 			gs.PerMessageBurnLimitList = append(gs.PerMessageBurnLimitList, ct.PerMessageBurnLimit{Denom: "uusdc", Amount: sdkInt(3)}) // outbound limit only
-			for _, d := range c04SweepDomains { // source domains outside the usual handful, for the source x amount block
+			for _, d := range c04SweepDomains {                                                                                        // source domains outside the usual handful, for the source x amount block
 				gs.TokenMessengerList = append(gs.TokenMessengerList, ct.RemoteTokenMessenger{DomainId: d, Address: Messenger(d, 0)})
 				gs.TokenPairList = append(gs.TokenPairList, ct.TokenPair{RemoteDomain: d, RemoteToken: Token(0), LocalToken: "uusdc"})
 			}
